@@ -81,3 +81,8 @@ func (ic *Credential) VerifPeekNonrevCache() *NonRevocationProofBuilder {
 		return nil
 	}
 }
+
+// VerifKeyshareHash exposes keyshareUserCommitmentsHash (CBOR + SHA-256 of the challenge input).
+func VerifKeyshareHash[T any](i []KeyshareUserChallengeInput[T]) ([]byte, error) {
+	return keyshareUserCommitmentsHash(i)
+}
